@@ -1,0 +1,14 @@
+//go:build verif
+
+package interp
+
+// VerifStepHook, when set (before any evaluation starts), is called before every
+// CFG operation executed by the plain (non-debug) loop of runCfg.
+// Arguments: the interpreter, the run id of the executing frame.
+var VerifStepHook func(i *Interpreter, frameID uint64)
+
+func verifStep(i *Interpreter, f *frame) {
+	if h := VerifStepHook; h != nil {
+		h(i, f.runid())
+	}
+}
